@@ -375,11 +375,10 @@ func (s *Writer) prepareIntroducePersist(persists chan *persistIntroduction, new
 	case persists <- persist:
 	}
 
-	select {
-	case <-s.closeCh:
-		return segment.ErrClosed
-	case <-persist.applied:
-	}
+	// the introducer has taken the introduction and always completes it (it closes
+	// applied without blocking); until then it owns newSegments, so there is no
+	// closeCh alternative here (same pattern as <-sm.notifyCh for merges)
+	<-persist.applied
 
 	return nil
 }
